@@ -174,9 +174,11 @@ def _norm_shift(t):
 
 def _r3_subpyramid(run, ev):
     project = run.project
-    f = project.fn(PYR + ".Pyramid._generator")
+    f = common.splice(project, project.fn(PYR + ".Pyramid._generator"))
     run.note_func(f)
-    ev0 = sym.make_evaluator(project, PYR, [PYR + ".pos_parent"])
+    ev0 = sym.make_evaluator(project, PYR, [PYR + ".pos_parent"], inline_local=True,
+                             no_inline=("generate_pos", "_postfix_pos", "is_subtile", "tiles_at_depth", "depth2tiles", "pos_children", "_make_position_filter",
+                                        "next_highest_power_of_2"))
     r = ev0.run(f.node)
     apex = ("attr", ("sym", "self"), "_apex")
     na = ("attr", apex, "n")
